@@ -144,7 +144,7 @@ type stdMatrix struct {
 	rank    int
 	zeroCol bool
 	zeroRow bool
-	bases   []stdBasis // all nonsingular m-subsets of columns (only if rank == m)
+	bases   []stdBasis             // all nonsingular m-subsets of columns (only if rank == m)
 	red     map[string]*reducedSys // rank-deficient A: the reduced system per right-hand side
 }
 
